@@ -114,6 +114,8 @@ class Evaluator:
                     r = self.truth(r)
                     if isinstance(op, ast.Eq):
                         r = not r
+                elif isinstance(op, (ast.Is, ast.IsNot)) and all(isinstance(x, bool) or x is None for x in (a, b)):
+                    r = (a is b) if isinstance(op, ast.Is) else (a is not b)        # True / False / None are singletons
                 elif isinstance(a, int) and isinstance(b, int):
                     r = {ast.Eq: a == b, ast.NotEq: a != b, ast.Lt: a < b, ast.LtE: a <= b, ast.Gt: a > b, ast.GtE: a >= b}.get(type(op))
                     if r is None:
@@ -233,6 +235,12 @@ class Evaluator:
                 return {"abs": abs, "min": min, "max": max}[n](*args)
             raise Unsupported(f"call {n}")
         args = [self.ev(a, env) for a in e.args if not (isinstance(a, ast.Name) and a.id == "self" and n.count(".") == 1 and n.split(".")[0] == self.ci.name)]
+        opfn = {"operator.or_": ast.BitOr, "operator.xor": ast.BitXor, "operator.and_": ast.BitAnd, "operator.add": ast.Add,
+                "operator.sub": ast.Sub, "operator.mul": ast.Mult, "operator.lshift": ast.LShift, "operator.rshift": ast.RShift,
+                "operator.pow": ast.Pow, "operator.mod": ast.Mod, "operator.floordiv": ast.FloorDiv,
+                "operator.__or__": ast.BitOr, "operator.__xor__": ast.BitXor, "operator.__and__": ast.BitAnd}.get(n)
+        if opfn is not None and len(args) == 2 and not e.keywords and self.ci.mod.imports.get("operator") == ("operator", None):
+            return self.binop(opfn(), args[0], args[1])
         if n in ("bytes", "bytearray", "list", "tuple") and len(args) == 1:
             v = args[0]
             if isinstance(v, tuple) and v and v[0] == "data":
